@@ -39,12 +39,14 @@ def one(cat, rng, stack, n):
         elif r < 7:
             vs = [b.value() for _ in range(rng.below(5))]
             f = rng.pick(forms_all)
-            b.raw("x a sextend %s [%s]" % (f, ",".join(b.r(v) for v in vs)), ("eq", "ok"), sig="stack-extend", shape="ext%d" % len(vs))
+            opx = rng.pick(["sextend", "sextendl"])      # exact-size iterator / iterator without a useful size hint
+            b.raw("x a %s %s [%s]" % (opx, f, ",".join(b.r(v) for v in vs)), ("eq", "ok"), sig="stack-extend", shape="ext%d" % len(vs))
             push_all(b, "a", vs)
         elif r < 8:
             vs = [b.value() for _ in range(rng.below(5))]
             f = rng.pick(forms_all)
-            b.raw("x a sfrom %s [%s]" % (f, ",".join(b.r(v) for v in vs)), ("eq", "ok"), sig="stack-from_iter", shape="from%d" % len(vs))
+            opx = rng.pick(["sfrom", "sfroml"])
+            b.raw("x a %s %s [%s]" % (opx, f, ",".join(b.r(v) for v in vs)), ("eq", "ok"), sig="stack-from_iter", shape="from%d" % len(vs))
             b.h["a"].vals = []
             push_all(b, "a", vs)
         elif r < 9:
